@@ -404,7 +404,7 @@ def classify(case, obs):
 
 
 def finding_signature(case, obs):
-    return None
+    return None          # no open finding for C07 (C07-F1..F5 are fixed in /repo)
 
 
 WIDEN = 1
